@@ -148,6 +148,12 @@ func (P) Gen(rng *sim.Rng, tier string) *harness.Case {
 		c.Callers = make([][]harness.Op, k)
 		for i := range c.Callers {
 			c.Callers[i] = gen(rng.Range(3, 10), false)
+			// Exit of an entry that another caller owns (and may be exiting or tracing on at the same moment)
+			for j, n := 0, rng.Weighted([]int{50, 30, 20}); j < n; j++ {
+				at := rng.Intn(len(c.Callers[i]) + 1)
+				x := harness.Op{K: "xexit", R: rng.Intn(k), E: rng.Intn(6)}
+				c.Callers[i] = append(c.Callers[i][:at], append([]harness.Op{x}, c.Callers[i][at:]...)...)
+			}
 		}
 		c.Sched = harness.GenSched(rng, nil, 500*k)
 		c.Sched.MaxSteps = 100000
@@ -229,6 +235,16 @@ type ment struct {
 	// uncounted: the entry was passed by an internal panic and the statistic slots
 	// were told nothing (recorded finding); the model then expects no completion either.
 	uncounted bool
+	// shared: some other caller exited (or tried to exit) this entry; errs: every error any caller handed to it
+	shared bool
+	errs   map[string]bool
+}
+
+func (m *ment) noteErr(e string) {
+	if m.errs == nil {
+		m.errs = map[string]bool{}
+	}
+	m.errs[e] = true
 }
 
 const keyPanic = "C01.panic-pass-not-counted"
@@ -279,6 +295,9 @@ type world struct {
 	live    []int              // per resource + inbound
 	errSeq  int
 	poolHit bool
+	// errSlack: tokens of entries that were exited by one caller while another handed them an error; whether the
+	// error reached the statistic before the completion was counted is open (per resource + inbound)
+	errSlack []int64
 }
 
 func newWorld(cfg *Cfg, o *harness.Outcome) *world {
@@ -288,6 +307,7 @@ func newWorld(cfg *Cfg, o *harness.Outcome) *world {
 		w.logs = append(w.logs, &model.WindowLog{L: 500, I: 10000})
 	}
 	w.live = make([]int, cfg.NRes+1)
+	w.errSlack = make([]int64, cfg.NRes+1)
 	return w
 }
 
@@ -387,6 +407,9 @@ func (w *world) checkFigures(step int, now uint64) {
 		lo, hi := w.logs[r].Range(now, 1000)
 		for _, k := range kinds {
 			want := w.logs[r].Sum(k.k, lo, hi)
+			if got := node.GetSum(k.ev); k.k == model.KError && w.errSlack[r] > 0 && got >= want && got <= want+w.errSlack[r] {
+				continue
+			}
 			if got := node.GetSum(k.ev); got != want {
 				o.Fail("C01.figure", step, "t=%d %s GetSum(event %d)=%d, tallied events in window [%d,%d] give %d", now, name, k.k, got, lo, hi, want)
 				return
@@ -644,6 +667,7 @@ func execConc(c *harness.Case, w *world, env *harness.Env) {
 				}
 				m := w.doEntry(op, bases[task]+len(ents), step, now)
 				ents = append(ents, m)
+				per[task] = ents
 				m.passed = m.e != nil
 				if (m.e == nil) == (m.be == nil) {
 					fails[task] = fmt.Sprintf("Entry returned entry=%v blockErr=%v", m.e != nil, m.be != nil)
@@ -660,10 +684,31 @@ func execConc(c *harness.Case, w *world, env *harness.Env) {
 					m := ents[op.E]
 					errSeq++
 					err := errOf(m.serial, errSeq)
+					m.noteErr(err.Error())
+					live := m.passed && !m.exited
 					sentinel.TraceError(m.e, err)
-					if m.passed && !m.exited {
+					if live && (!m.exited || m.shared) {
+						// (exited in the meantime by another caller: which of the two took effect first is open, see shared)
 						m.lastErr = err.Error()
 					}
+				}
+			case "xexit":
+				victim := (task + 1 + op.R%k) % k
+				if victim == task || op.E < 0 || op.E >= len(per[victim]) || per[victim][op.E] == nil || per[victim][op.E].e == nil {
+					continue
+				}
+				m := per[victim][op.E]
+				m.shared = true
+				first := m.passed && !m.exited
+				if first {
+					m.exited = true
+					o.Probe("entry_exited_by_other_goroutine")
+				} else {
+					o.Probe("repeated_exit_from_other_goroutine")
+				}
+				m.e.Exit()
+				if first {
+					tallies[task] = append(tallies[task], tl{m.res, m.inbound, model.KComplete, int64(m.batch), m})
 				}
 			case "exit":
 				if op.E >= 0 && op.E < len(ents) && ents[op.E] != nil && ents[op.E].e != nil {
@@ -678,12 +723,17 @@ func execConc(c *harness.Case, w *world, env *harness.Env) {
 						m.lastErr = err.Error()
 					}
 					if err != nil {
+						m.noteErr(err.Error())
+					}
+					if first {
+						m.exited = true // before the call: another caller may try to exit it while this Exit is in progress
+					}
+					if err != nil {
 						m.e.Exit(base.WithError(err))
 					} else {
 						m.e.Exit()
 					}
 					if first {
-						m.exited = true
 						tallies[task] = append(tallies[task], tl{m.res, m.inbound, model.KComplete, int64(m.batch), m})
 						if m.lastErr != "" {
 							tallies[task] = append(tallies[task], tl{m.res, m.inbound, model.KError, int64(m.batch), m})
@@ -817,6 +867,14 @@ func execConc(c *harness.Case, w *world, env *harness.Env) {
 				o.Fail("C01.completion-not-once", 0, "entry #%d (passed=%v) completion reported %d times", m.serial, m.passed, doneCnt[m.serial])
 				return
 			}
+			if m.passed && !pan && m.shared {
+				// exited by two callers at once: the completion carries no error or one that was handed to this entry
+				if e := seenDone[m.serial]; e != "" && !m.errs[e] {
+					o.Fail("C01.completion-attribution", 0, "entry #%d completed with error %q, which no caller ever handed to it", m.serial, e)
+					return
+				}
+				continue
+			}
 			if m.passed && !pan && seenDone[m.serial] != m.lastErr {
 				o.Fail("C01.completion-attribution", 0, "entry #%d completed with error %q, its caller last set %q", m.serial, seenDone[m.serial], m.lastErr)
 				return
@@ -832,7 +890,20 @@ func execConc(c *harness.Case, w *world, env *harness.Env) {
 			if x.kind == model.KError && x.m != nil && (x.m.panicky || x.m.script == sPanicCheck || x.m.script == sPanicPrepare) {
 				continue
 			}
+			if x.kind == model.KError && x.m != nil && x.m.shared {
+				continue
+			}
 			w.tally(x.res, x.inbound, now, x.kind, x.amt)
+		}
+	}
+	for t := range per {
+		for _, m := range per[t] {
+			if m != nil && m.passed && m.shared && !m.uncounted && !(m.panicky || m.script == sPanicCheck || m.script == sPanicPrepare) && len(m.errs) > 0 {
+				w.errSlack[m.res] += int64(m.batch)
+				if m.inbound {
+					w.errSlack[w.cfg.NRes] += int64(m.batch)
+				}
+			}
 		}
 	}
 	// a counted panic-passed entry completes with the internal error
